@@ -2,6 +2,7 @@ import Pyunicorn.Model.Proto
 import Pyunicorn.Model.Visibility
 import Pyunicorn.Model.VisibilityExt
 import Pyunicorn.Model.VisibilityBetw
+import Pyunicorn.Model.VisibilityScale
 /-! Line-protocol driver of C14: one request per line on stdin, one answer per line.
 
 * `nvg_mv N x t mv`, `nvg N x t`, `hvg N x` — the three kernels: adjacency matrix or `raise:…`
@@ -26,6 +27,17 @@ import Pyunicorn.Model.VisibilityBetw
 * `pl x t|- missing horizontal` — round 4: `path_lengths()` of the constructed graph computed by the
   breadth-first search `Net.dist` (C03's model; `pathLen_is_bfs`), rows separated by `;`, `inf`
   for unreachable, followed by `|` and the same matrix from the specification `pathLen`
+* `noufl N x t a c` — round 5: `1` iff `NoUflOn x t N a c` (hypothesis of `nvg_f32_pow2_invariant`:
+  then the float32 natural kernels return on `x·2^a`, `t·2^c` what they return on `x`, `t`)
+* `nvgRs N x t a c`, `nvgRs_mv N x t a c mv` — round 5: `kernelNR rndF32` on the series rescaled
+  *inside the model* (`scaleVals a x`, `scaleTimes c t`)
+* `matR x t|- missing horizontal` — round 5: the adjacency matrix of the constructor **in FIELD
+  arithmetic** (`classLogR rndF32`: conversion of series and timings to binary32, `np.arange(N,
+  dtype=FIELD)`, then the float kernels)
+* `faithfulc x t|-` — round 5: `1` iff `FaithfulConv rndF32 x timings` (the stored data are
+  order-faithful: then `class_f32_is_exact_on_stored_data` applies)
+* `nouflc x t|- a c` — round 5: `1` iff `noUflConvB x timings a c` (hypotheses of
+  `class_f32_pow2_invariant_decided`)
 -/
 open Pyunicorn Pyunicorn.Proto Pyunicorn.Visibility
 
@@ -85,6 +97,14 @@ def answer (toks : List String) : String :=
   | ["nvgR_mv", n, x, t, m] =>
       showLog n.toNat! (kernelNR rndF32 (vals x) (rats t) (some (bools m)) n.toNat!)
   | ["nvgR", n, x, t] => showLog n.toNat! (kernelNR rndF32 (vals x) (rats t) none n.toNat!)
+  | ["noufl", n, x, t, a, c] =>
+      if decide (NoUflOn (vals x) (rats t) n.toNat! a.toInt! c.toInt!) then "1" else "0"
+  | ["nvgRs", n, x, t, a, c] =>
+      showLog n.toNat! (kernelNR rndF32 (scaleVals a.toInt! (vals x)) (scaleTimes c.toInt! (rats t))
+        none n.toNat!)
+  | ["nvgRs_mv", n, x, t, a, c, m] =>
+      showLog n.toNat! (kernelNR rndF32 (scaleVals a.toInt! (vals x)) (scaleTimes c.toInt! (rats t))
+        (some (bools m)) n.toNat!)
   | ["faithful", n, x, t] =>
       if decide (Faithful rndF32 (vals x) (rats t) n.toNat!) then "1" else "0"
   | ["exactdiffs", n, x, t] =>
@@ -100,6 +120,15 @@ def answer (toks : List String) : String :=
         join [showRats (r.map (retBetw N A)), showRats (r.map (advBetw N A)),
               showRats (r.map (transBetw N A)), showRats (r.map (retBetwSpec N A)),
               showRats (r.map (advBetwSpec N A)), showRats (r.map (transBetwSpec N A))] "|"
+  | ["matR", x, t, mis, hor] =>
+      showLog (vals x).length (classLogR rndF32 (vals x) (if t == "-" then none else some (rats t))
+        (mis == "1") (hor == "1"))
+  | ["nouflc", x, t, a, c] =>
+      if noUflConvB (vals x) (if t == "-" then none else some (rats t)) a.toInt! c.toInt!
+        then "1" else "0"
+  | ["faithfulc", x, t] =>
+      if decide (FaithfulConv rndF32 (vals x) (if t == "-" then none else some (rats t)))
+        then "1" else "0"
   | ["mat", x, t, mis, hor] =>
       showMat (classMat (vals x) (if t == "-" then none else some (rats t)) (mis == "1") (hor == "1"))
   | [c, x, t, mis, hor] =>
